@@ -5,7 +5,9 @@ use crate::explore::{explore, record, Caps};
 use crate::hist::{HistCfg, HistSystem};
 
 pub mod c01;
+pub mod c13;
 pub mod hist_props;
+pub mod kernel_props;
 pub mod format_props;
 pub mod replay;
 pub mod txn_props;
@@ -22,6 +24,9 @@ pub fn run(id: &str, tier: Tier) -> i32 {
         "C07" => txn_props::c07(tier),
         "C19" => txn_props::c19(tier),
         "C18" => txn_props::c18(tier),
+        "C11" => kernel_props::c11(tier),
+        "C12" => kernel_props::c12(tier),
+        "C13" => c13::run(tier),
         "C16" => format_props::c16(tier),
         "C17" => format_props::c17(tier),
         other => {
